@@ -451,6 +451,71 @@ Section CheckTermination.
     destruct Hc as [[_ Hc]|[_ Hc]]; [left | right]; exact Hc.
   Qed.
 
+  (* The call tree of a request, as a relation: a call (depth, visited, o, r) that passes the depth
+     test and the cycle test has the sub-calls listed by check_depth_bound.  Along every path of
+     that tree: the depth stays <= maxdepth, never exceeds the length of the visited path, and
+     the visited path has no repetition (so its length — the nesting — is bounded by the number
+     of atoms of any universe that contains it). *)
+  Definition callsig := (nat * list atom * atom)%type.
+
+  Inductive subcall : callsig -> callsig -> Prop :=
+  | sc_dispatch : forall d v o r a,
+      d <> maxdepth -> existsb (atom_eqb (o, r)) v = false -> In a (dispatched o r) ->
+      subcall (d, v, (o, r)) (S d, (o, r) :: v, a)
+  | sc_computed : forall d v o r a,
+      d <> maxdepth -> existsb (atom_eqb (o, r)) v = false -> In a (computed_of o r) ->
+      subcall (d, v, (o, r)) (d, (o, r) :: v, a).
+
+  Inductive reachable (c0 : callsig) : callsig -> Prop :=
+  | reach_refl : reachable c0 c0
+  | reach_step : forall c c', reachable c0 c -> subcall c c' -> reachable c0 c'.
+
+  Theorem reachable_call_invariant : forall o r c,
+    reachable (O, [], (o, r)) c ->
+    (fst (fst c) <= maxdepth)%nat /\
+    (fst (fst c) <= length (snd (fst c)))%nat /\
+    NoDup (snd (fst c)).
+  Proof.
+    intros o r c H. induction H as [|c c' Hr IH Hs].
+    - simpl. repeat split; [lia | lia | constructor].
+    - destruct IH as [H1 [H2 H3]].
+      assert (Hnd : forall v a, existsb (atom_eqb a) v = false -> NoDup v -> NoDup (a :: v)).
+      { intros v a Hv Hn. constructor; [|exact Hn]. intro Hin.
+        apply existsb_atom_In in Hin. rewrite Hin in Hv. discriminate Hv. }
+      inversion Hs as [d v o' r' a Hd Hv Ha|d v o' r' a Hd Hv Ha]; subst; simpl in *.
+      + repeat split; [lia | lia | apply Hnd; assumption].
+      + repeat split; [exact H1 | lia | apply Hnd; assumption].
+  Qed.
+
+  (* in a closed universe the visited path of every reachable call stays inside the universe:
+     at most |U| nested calls *)
+  Theorem reachable_nesting_bound : forall U o r c,
+    closedb atom atom_eqb subproblems U = true -> existsb (atom_eqb (o, r)) U = true ->
+    reachable (O, [], (o, r)) c ->
+    incl (snd c :: snd (fst c)) U /\ (length (snd (fst c)) <= length U)%nat.
+  Proof.
+    intros U o r c Hc Hx H.
+    assert (Hin : incl (snd c :: snd (fst c)) U).
+    { induction H as [|c c' Hr IH Hs].
+      - simpl. intros a [Ha|[]]. subst a. apply existsb_atom_In. exact Hx.
+      - assert (Hcur : vmem atom atom_eqb (snd c) U = true).
+        { apply existsb_atom_In. apply IH. left. reflexivity. }
+        inversion Hs as [d v o' r' a Hd Hv Ha|d v o' r' a Hd Hv Ha]; subst; simpl in *.
+        + intros b [Hb|Hb].
+          * subst b. apply existsb_atom_In.
+            apply (closedb_next atom atom_eqb atom_eqb_eq subproblems U (o', r') a Hc Hcur).
+            unfold subproblems. simpl. apply in_or_app. left. exact Ha.
+          * apply IH. exact Hb.
+        + intros b [Hb|Hb].
+          * subst b. apply existsb_atom_In.
+            apply (closedb_next atom atom_eqb atom_eqb_eq subproblems U (o', r') a Hc Hcur).
+            unfold subproblems. simpl. apply in_or_app. right. exact Ha.
+          * apply IH. exact Hb. }
+    split; [exact Hin|].
+    destruct (reachable_call_invariant o r c H) as [_ [_ Hnd]].
+    apply NoDup_incl_length; [exact Hnd|]. intros a Ha. apply Hin. right. exact Ha.
+  Qed.
+
   (* ================================================================== *)
   (* 3. termination by the visited-set measure                          *)
   (* ================================================================== *)
